@@ -39,6 +39,7 @@ contract(CLOUD + "BaseCloud._post_request",
                       "variant": "retries"}})
 
 contract(NHP + "._api_request",
+         assumed="signs the request (urllib, hashlib over strings) and posts it under the API lock; string functions are uninterpreted, the raise set is taken from _post_request and _parse_response which are verified",
          params={"self": "obj:" + NHP, "endpoint": "str", "body": "ext:json"},
          rtype="ext:json",
          raises={CLOUD + "CloudError": {}, "builtins.KeyError": {}, "builtins.ValueError": {}, "builtins.TypeError": {}},
@@ -57,12 +58,14 @@ contract(CLOUD + "BaseCloud.get_token",
 # ---- C19: a discovered V3 device is authenticated with the credentials registered for its id, in either byte order ----------------
 DISC = "msmart.discover."
 contract(DISC + "Discover._get_cloud",
+         assumed="creates / returns the class-level cloud connection under a class-level lock (shared state the contracts do not describe)",
          params={},
          rtype="obj:" + NHP,
          raises={CLOUD + "CloudError": {}},
          notes="used at call sites")
 
 contract("msmart.base_device.Device.authenticate#cloud",
+         assumed="call-site view of Device.authenticate for credentials that are JSON values (uninterpreted); the body is verified by the contract msmart.base_device.Device.authenticate with bytes credentials",
          params={"self": "obj:msmart.base_device.Device", "token": "ext:json", "key": "ext:json"},
          emits={"auth": "(token, key)"},
          raises={"msmart.lan.AuthenticationError": {"emits": {"auth": "(token, key)"}}},
